@@ -56,6 +56,25 @@ ResIsNorm(res, A, K) ==
      /\ res[k][1] > 0
      /\ QEq(QMul(res[k], res[k]), QMul(QMul(K, K), Dot3(Col(A, k), Col(A, k))))
 
+\* Reach of the fixed-point representation.  The harness reports an entry of
+\* the generated resolution / translation whose magnitude is >= Reach case
+\* units (131 mm at K = 1000; it may not fit TLC's integers) BY NAME instead of
+\* by value.  WithinReach (evaluated by TLC on every case) bounds every TRUE
+\* quantity of the case below Reach:
+\*   res[k] = K.|col k| <= K.L1Col(k)
+\*   |t[r]| = |K.a[r] - sum_k T[r][k].res[k]/2| <= K.(|a[r]| + 6.max_k L1Col(k))
+\*            for ANY T with entries below 4 that satisfies the identity at
+\*            voxel 0 (the true T has entries <= 1)
+\* so an entry out of reach cannot satisfy ResIsNorm resp. CentreIdentity.
+Reach == 131072
+QAbsQ(q) == <<QAbs(q[1]), q[2]>>
+L1Col(A, k) == QAdd(QAdd(QAbsQ(A[1][k]), QAbsQ(A[2][k])), QAbsQ(A[3][k]))
+WithinReach(A, a, K) ==
+  \A r \in 1..3, k \in 1..3 :
+     QLess(QMul(K, QAdd(QAbsQ(a[r]), QMul(QInt(6), L1Col(A, k)))), QInt(Reach))
+SmallT(T) == \A r \in 1..3, k \in 1..3 : QLess(QAbsQ(T[r][k]), QInt(4))
+Thick(size) == \A k \in 1..3 : size[k] >= 2
+
 \* the voxels at which the identity is evaluated: the 8 corners and the centre
 CornerVoxels(size) == {<<x, y, z>> : x \in {0, size[1] - 1}, y \in {0, size[2] - 1}, z \in {0, size[3] - 1}}
 CentreVoxel(size) == <<size[1] \div 2, size[2] \div 2, size[3] \div 2>>
